@@ -49,7 +49,6 @@ Theorem C08_member_index_in : forall h x sh d, p_indexin None h x = Ok (Arr TNum
 Proof. exact member_index_in. Qed.
 Theorem C08_reshape_deshape : forall a, wf a -> Forall (fun n => Z.of_nat n <= amt_limit)%Z (ash a) ->
   (zprod (map Z.of_nat (ash a)) * Z.max 1 (Z.of_nat (length (adata a))) <= size_limit)%Z ->
-  (length (ash a) <= 8)%nat ->
   p_reshape None false (map (fun n => AInt (Z.of_nat n)) (ash a)) (p_deshape a) = Ok a.
 Proof. exact reshape_deshape. Qed.
 (** rise_sorts *)
@@ -92,6 +91,42 @@ Example C08_rotate_extra_axes_nonvacuous :
   p_rotate None [AInt 1; AInt 1] (Arr TNum [0]%nat []) = Ok (Arr TNum [0]%nat []) /\
   p_rotate None [AInt 1; AInt 1] (Arr TNum [3]%nat [ENum 1; ENum 2; ENum 3]) = Err /\
   p_drop [AInt 3; AInt 1] (Arr TNum [3]%nat [ENum 1; ENum 2; ENum 3]) = Err.
+Proof. vm_compute. repeat split; reflexivity. Qed.
+
+(** rotate: composition and inverse *)
+Theorem C08_rotate_add : forall a n s (i j : Z), ash a = n :: s -> wf a ->
+  (r <- p_rotate None [AInt j] a ;; p_rotate None [AInt i] r) = p_rotate None [AInt (i + j)] a.
+Proof. exact rotate_add. Qed.
+Theorem C08_rotate_inverse : forall a n s (k : Z), ash a = n :: s -> wf a ->
+  (r <- p_rotate None [AInt k] a ;; p_rotate None [AInt (- k)] r) = Ok a.
+Proof. exact rotate_inverse. Qed.
+(** join of two arrays of the same rank and row shape appends the rows; couple is join of the fixed arrays *)
+Theorem C08_join_same_rank : forall t na nb s da db, (0 < na)%nat -> (0 < nb)%nat ->
+  p_join None (Arr t (na :: s) da) (Arr t (nb :: s) db) = Ok (Arr t ((na + nb)%nat :: s) (da ++ db)).
+Proof. exact join_same_rank. Qed.
+Theorem C08_couple_join_fix : forall a b, aty a = aty b -> ash a = ash b ->
+  p_couple None a b = p_join None (p_fix a) (p_fix b).
+Proof. exact couple_join_fix. Qed.
+Theorem C08_deshape_fix : forall a, p_deshape (p_fix a) = p_deshape a.
+Proof. exact deshape_fix. Qed.
+(** select / pick / first *)
+Theorem C08_select_zero_first : forall a n s, ash a = S n :: s ->
+  p_select None [] [AInt 0] a = p_first None a.
+Proof. exact select_zero_first. Qed.
+Theorem C08_pick_scalar_select : forall a n s z, ash a = n :: s ->
+  p_pick None [] [AInt z] a = p_select None [] [AInt z] a.
+Proof. exact pick_scalar_select. Qed.
+Example C08_extension_nonvacuous :
+  let a := Arr TNum [3; 2]%nat [ENum 1; ENum 2; ENum 3; ENum 4; ENum 5; ENum 6] in
+  wf a /\
+  p_rotate None [AInt 1] a = Ok (Arr TNum [3; 2]%nat [ENum 3; ENum 4; ENum 5; ENum 6; ENum 1; ENum 2]) /\
+  (r <- p_rotate None [AInt 5] a ;; p_rotate None [AInt (-7)] r) = p_rotate None [AInt (-2)] a /\
+  p_rotate None [AInt (-2)] a = p_rotate None [AInt 1] a /\
+  p_couple None a a = Ok (Arr TNum [2; 3; 2]%nat (adata a ++ adata a)) /\
+  p_select None [] [AInt 0] a = Ok (Arr TNum [2]%nat [ENum 1; ENum 2]) /\
+  p_pick None [] [AInt (-1)] a = Ok (Arr TNum [2]%nat [ENum 5; ENum 6]) /\
+  p_reshape None false (map (fun n => AInt (Z.of_nat n)) [1; 1; 1; 1; 1; 1; 1; 1; 1; 3; 2]%nat) (p_deshape a)
+    = Ok (Arr TNum [1; 1; 1; 1; 1; 1; 1; 1; 1; 3; 2]%nat (adata a)).
 Proof. vm_compute. repeat split; reflexivity. Qed.
 
 (** non-vacuity: the premises are met by non-trivial arrays and the laws compute *)
@@ -150,3 +185,10 @@ Print Assumptions C08_dedup_spec.
 Print Assumptions C08_match_spec.
 Print Assumptions C08_keep_neg_scalar.
 Print Assumptions C08_rotate_extra_axes.
+Print Assumptions C08_rotate_add.
+Print Assumptions C08_rotate_inverse.
+Print Assumptions C08_join_same_rank.
+Print Assumptions C08_couple_join_fix.
+Print Assumptions C08_deshape_fix.
+Print Assumptions C08_select_zero_first.
+Print Assumptions C08_pick_scalar_select.
